@@ -549,6 +549,11 @@ impl Pool for PoolImpl {
             .parent_ready_tracker
             .handle_finalization(finalization_event);
         self.send_parent_ready_events(new_parents_ready).await;
+        // a newly known parent link may have decided (and thus pruned) a prefix of slots
+        self.prune();
+        if *slot < self.first_unpruned_slot() {
+            return;
+        }
 
         self.slot_state(*slot).notify_parent_known(block_hash);
         if let Some(parent_state) = self.slot_states.get(parent_slot)
